@@ -149,7 +149,7 @@ func init() {
 		ID:   "C18",
 		Desc: "no carry-over between messages through recycled message objects and buffers",
 		Run:  runC18,
-		Quick: 64000, Thorough: 1200000, QuickSecs: 60, ThorSecs: 1500,
+		Quick: 64000, Thorough: 4000000, QuickSecs: 60, ThorSecs: 1500,
 		Rule:  "trains of 6-36 messages of one or two types with shrinking/growing shapes (Twalk/Twalkgetattr name lists 16->9->1->0, Twrite payloads 4096->1->0, Tread/Treaddir counts long->short->0, Tsymlink/Tmkdir/Tlock/Trenameat strings long->empty, Tsetattr/Tgetattr masks, Txattrwalk names) on one connection and interleaved over 1-3 connections of one server process (process-wide message cache and buffer pools, emptied at run start, pool misses forced 0/20/50/90%); client side: reply trains from a fake server through the client's recycled response objects. Oracle: backend arguments (deep-copied at the call) equal the request's own fields as encoded by the independent codec; replies are what the C04 model and the call log prescribe (Rread = exactly the bytes the backend produced, Rreaddir = the whole entries that fit).",
 		Real:   []string{"p9 message registry cache", "p9 buffer pools", "p9 decode/encode", "p9.Server"},
 		Stub:   []string{"transport (simnet pipes)", "backend tree (simfs)", "raw 9P peer / fake server (refcodec)"},
